@@ -102,6 +102,18 @@ type (
 	}
 )
 
+// Validate validates the spec: the broker is started with the result of
+// getPipelineMap and panics if it can't be built.
+func (spec *Spec) Validate() error {
+	for _, rule := range spec.Rules {
+		if rule == nil || rule.When == nil {
+			return fmt.Errorf("rule without when")
+		}
+	}
+	_, err := getPipelineMap(spec)
+	return err
+}
+
 func (spec *Spec) tlsConfig() (*tls.Config, error) {
 	var certificates []tls.Certificate
 
